@@ -904,7 +904,9 @@ where
             // SET SHARDING KEY TO 'bigint';
 
             let message = tokio::select! {
-                _ = self.shutdown.recv() => {
+                // Admin clients ignore shutdown: their read must not be cancelled halfway
+                // through a message, the bytes already consumed would be lost.
+                _ = self.shutdown.recv(), if !self.admin => {
                     if !self.admin {
                         error_response_terminal(
                             &mut self.write,
